@@ -645,6 +645,13 @@ func (c *HostClient) doNonNilReqResp(req *protocol.Request, resp *protocol.Respo
 		// Only if the connection is closed while writing the request. Try to parse the response and return.
 		// In this case, the request/response is considered as successful.
 		// Otherwise, return the former error.
+		// (read like any other response: under the client's options and the request's method)
+		if customSkipBody || req.Header.IsHead() || req.Header.IsConnect() {
+			resp.SkipBody = true
+		}
+		if c.DisableHeaderNamesNormalizing {
+			resp.Header.DisableNormalizing()
+		}
 		zr := c.acquireReader(conn)
 		defer zr.Release()
 		if respI.ReadHeaderAndLimitBody(resp, zr, c.MaxResponseBodySize) == nil {
